@@ -58,7 +58,7 @@ func loopTo(v string, n int64, body ...*Node) *Node {
 // inside loops, lets, cond arms, closures, inside functions passed to map / apply, at depth.
 func idiom(r *lib.Rng) (*Program, string) {
 	n := int64(2 + r.Intn(3))
-	switch r.Intn(14) {
+	switch r.Intn(17) {
 	case 0: // map over an array; the callback has an effect before each failure point
 		return &Program{Forms: []*Node{Def("x", Arr(Int(1), Int(2), Int(3))), Def("y", Int(0)),
 			Def("f", Fn([]string{"a"}, "", Set("y", CallN("+", Var("y"), Var("a"))), failk(Var("a")))),
@@ -116,6 +116,26 @@ func idiom(r *lib.Rng) (*Program, string) {
 			Defn("f", []string{"v"}, "", loopTo("i", 2,
 				CallN("map", Fn([]string{"a"}, "", CallN("apply", Fn([]string{"p", "q"}, "", Set("y", CallN("+", Var("y"), Var("p"))), failk(Var("q"))), Arr(Var("a"), Var("i")))), Var("v")))),
 			CallN("f", Arr(Int(1), Int(2))), Var("y")}}, "apply-in-map-in-loop"
+	case 14, 15, 16: // a closure made in a loop body keeps a break / continue whose loop is gone when it is called:
+		// the call fails, and must fail the same way every time it is made again
+		exit := []*Node{Break(""), Cont(""), Break("outer"), Cont("outer")}[r.Intn(4)]
+		lbl := ""
+		if exit.Name != "" {
+			lbl = "outer"
+		}
+		body := []*Node{failk(Var("a")), Cond(CallN(">", Var("a"), Int(0)), exit, Var("a"))}
+		var mk *Node
+		switch r.Intn(3) {
+		case 0:
+			mk = Set("f", Fn([]string{"a"}, "", body...))
+		case 1:
+			mk = Begin(Defn("g", []string{"a"}, "", body...), Set("f", Var("g")))
+		default:
+			mk = Set("f", Fn([]string{"a"}, "", Let(false, []string{"b"}, []*Node{Var("a")}, body...)))
+		}
+		return &Program{Forms: []*Node{Def("f", Nil()), Def("y", Int(0)),
+			For(lbl, Def("i", Int(0)), CallN("<", Var("i"), Int(2)), inc("i"), mk, inc("y")),
+			CallN("f", Int(0)), CallN("f", failk(Int(1))), CallN("f", Int(2)), Var("y")}}, "loop-exit-in-escaped-closure"
 	default: // newScope + def of a fresh global in the failing form itself
 		return &Program{Forms: []*Node{
 			Begin(Def("x", Int(1)), Scope(Def("y", failk(Int(2))), Set("x", failk(CallN("+", Var("x"), Var("y"))))), Def("y", failk(Int(5))), failk(Var("x")))}}, "scope-def"
@@ -387,6 +407,12 @@ func battery(names []string) []Text {
 		For("", Def("i9", Int(0)), CallN("<", Var("i9"), Int(5)), inc("i9"),
 			Cond(CallN("==", Var("i9"), Int(3)), Break(""), Set("acc9", CallN("+", Var("acc9"), Var("i9"))))),
 		Var("acc9"))
+	// every call once more: a call that failed must fail the same way when it is made again
+	// (compiled code caches run-time lookups: break / continue positions), a call that worked must work
+	for _, n := range names {
+		add(CallN(n))
+		add(CallN(n, Int(1)))
+	}
 	add() // the empty evaluation
 	add(Arr(Var("acc9"), CallN("nf9", Int(1))))
 	return ts
